@@ -44,6 +44,8 @@ template <class K> static void check_copy(Engine<K> &src, Engine<K> &dst, const 
         if (p->flavour == 2) VF_CHECK(found, "oracle:copy-lost-persistent", how << ": persistent property " << p->label << " " << p->name << " is missing in the copy");
         else VF_CHECK(!found, "oracle:copy-carried-nonpersistent", how << ": non-persistent property " << p->label << " " << p->name << " was carried over");
         if (found) VF_CHECK(!p->same_storage_as_found(dst.mesh, cur()->rng), "oracle:copy-shares-storage", how << ": writing through the source's handle of " << p->name << " changed the copy's property");
+        // an equal-valued copy also fills new slots like the original: same default value
+        if (found && p->flavour == 2) { cur()->cnt.add("copied-defaults"); VF_CHECK(p->def_in(dst.mesh) == p->def(), "oracle:copy-differs:default", how << ": persistent property " << p->label << " " << p->name << " has default " << p->def() << " in the source and " << p->def_in(dst.mesh) << " in the copy"); }
     }
     size_t expect_v = b.n_pers[0] + 1;   // + "ovm:position"
     VF_CHECK(b.n_props[0] >= expect_v && b.n_props[0] <= expect_v + dst.orphans.size() + dst.props.size() + 2, "oracle:copy-extra-props", how << ": vertex property count of the copy is " << b.n_props[0]);
